@@ -1137,6 +1137,8 @@ class ServiceInstance:
         self._task.cancel()
         asyncio.create_task(wait_cancelled(self._task))
         self._task = None
+        # a finished (non-cyclic) task is never cancelled, so reset this here as well
+        self._can_answer_offers = False
 
         # cyclic tasks send stop when they are cancelled
         if not self.timings.CYCLIC_OFFER_DELAY:
@@ -1189,6 +1191,13 @@ class ServiceInstance:
             self.timings.ANNOUNCE_TTL if not stop else 0
         )
         self.announcer.queue_send(entry, remote=remote)
+
+    def _answer_find(self, remote: _T_SOCKADDR) -> None:
+        # answers to FindService are sent from the event loop, possibly delayed: the
+        # instance may have been stopped in the meantime and must stay silent then
+        if not self._can_answer_offers:
+            return
+        self._send_offer(remote)
 
     def matches_find(
         self, entry: someip.header.SOMEIPSDEntry, addr: _T_SOCKADDR
@@ -1397,7 +1406,7 @@ class ServiceAnnouncer:
                 asyncio.get_event_loop().call_soon(func, addr)
 
         for instance in matching_instances:
-            call(instance._send_offer)
+            call(instance._answer_find)
 
     def start(self, loop=None):
         for instance in self.announcing_services:
